@@ -12,6 +12,8 @@
 //         deadline it does not report timeout; the pred form returns pred()
 //   stop  wait(lock, stop_token, pred) returns once stop is requested (false), returns true when pred is set,
 //         returns pred() at once when stop was requested before
+//   slow  (c07_rt <seed> <n> slow) user lock whose unlock() stays busy 1..2 ms after releasing the mutex, notifier
+//         blocked on that mutex notifies as soon as it owns it: every waiter registered before must wake
 // A round that does not complete within the watchdog is a lost notification.
 #include <pika/config.hpp>
 #include <pika/init.hpp>
@@ -409,11 +411,191 @@ static Outcome run_pred(int K, bool any, Rng& rng)
     return out;
 }
 
+// ---------------------------------------------------------------------------------------------------
+// slow-unlock scenario: "wait releases the user lock and becomes a waiter atomically w.r.t. notifiers".
+// The user lock is a legitimate BasicLockable whose unlock() keeps the CALLER busy for 1..2 ms AFTER the
+// underlying mutex has been released (think: statistics, logging, a lock hierarchy checker).  A notifier is
+// blocked on that same underlying mutex while a waiter holds it; it gets the mutex the moment the waiter's
+// wait releases it, changes the predicate and notifies at once (under the lock or right after unlocking).
+// Every waiter that registered (under U) before the notifier acquired U has released U inside its wait, so
+// it must be woken by that notification although it is still busy inside its own unlock().  Forms: plain
+// wait(Lock&) in a loop, wait(Lock&, Pred), wait(Lock&, stop_token, Pred) (woken by notify or by
+// request_stop), wait_for(Lock&, 300 ms) (must not report timeout for a notification that returned >= 150 ms
+// before the deadline).  Underlying mutex: pika::mutex or the spinlock (then also an OS-thread notifier).
+template <typename Mutex>
+struct slow_unlock_lock
+{
+    Mutex& m;
+    std::uint64_t busy_ns;
+    bool owned = false;
+    slow_unlock_lock(Mutex& m_, std::uint64_t busy) : m(m_), busy_ns(busy) {}
+    void lock() { m.lock(); owned = true; }
+    void unlock()
+    {
+        owned = false;
+        m.unlock();               // from here on another thread may own the user lock
+        spin_for_ns(busy_ns);     // ... while the caller is still inside unlock()
+    }
+    bool owns_lock() const { return owned; }
+};
+
+static std::int64_t now_ns() { return std::chrono::duration_cast<std::chrono::nanoseconds>(clk::now().time_since_epoch()).count(); }
+
+template <typename Mutex>
+static Outcome run_slow(char form, char mode, int K, bool under_lock, bool os_notifier, Rng& rng)
+{
+    // form 'w' wait(lk) loop, 'p' wait(lk, pred), 's' wait(lk, stop_token, pred), 't' wait_for(lk, 300ms) loop
+    // mode 'a' notify_all + generation, 'o' notify_one + tickets, 'r' request_stop (form 's' only)
+    struct Shared
+    {
+        Mutex m;
+        pika::condition_variable_any cv;
+        pika::stop_source ss;
+        int registered = 0;
+        long gen = 0;
+        long tickets = 0;
+        int inside = 0;
+        std::atomic<long> notified_gen{0};
+        std::atomic<std::int64_t> notified_ns{0};
+        std::atomic<int> done{0}, bad_own{0}, bad_pred{0}, occ_bad{0}, bad_ret{0}, bad_timeout{0}, bad_status{0};
+    };
+    auto sh = std::make_shared<Shared>();
+    Outcome out;
+    static constexpr int timed_ms = 300, timed_margin_ms = 150;
+    std::vector<pika::thread> th;
+    for (int t = 0; t < K; ++t)
+        th.emplace_back([sh, form, mode, delay = rng.below(200), busy = 1000000 + rng.below(1000000), hold = 30000 + rng.below(150000)] {
+            spin_for_ns(delay * 1000);
+            slow_unlock_lock<Mutex> lk(sh->m, busy);
+            lk.lock();
+            ++sh->registered;
+            long const my = sh->gen;
+            auto ready = [&] { return mode == 'o' ? sh->tickets > 0 : sh->gen != my; };    // mode 'r': never true
+            spin_for_ns(hold);    // U stays held for a moment: the notifier is blocked on U when the wait releases it
+            bool r = true;
+            if (form == 'w') { while (!ready()) sh->cv.wait(lk); }
+            else if (form == 'p') sh->cv.wait(lk, ready);
+            else if (form == 's') r = sh->cv.wait(lk, sh->ss.get_token(), ready);
+            else
+                while (!ready())
+                {
+                    auto deadline = clk::now() + std::chrono::milliseconds(timed_ms);
+                    auto st = sh->cv.wait_for(lk, std::chrono::milliseconds(timed_ms));
+                    if (st != pika::cv_status::timeout && st != pika::cv_status::no_timeout) ++sh->bad_status;
+                    if (st == pika::cv_status::timeout && sh->notified_gen.load(std::memory_order_acquire) > my)
+                    {
+                        // a notify_all issued after this waiter had released U returned at notified_ns
+                        auto dl = std::chrono::duration_cast<std::chrono::nanoseconds>(deadline.time_since_epoch()).count();
+                        if (dl - sh->notified_ns.load() >= timed_margin_ms * 1000000LL) ++sh->bad_timeout;
+                    }
+                }
+            if (mode == 'r') { if (r || ready()) ++sh->bad_ret; }    // stop requested, predicate never set
+            else
+            {
+                if (!ready()) ++sh->bad_pred;
+                if (!r) ++sh->bad_ret;
+                if (mode == 'o') --sh->tickets;
+            }
+            --sh->registered;
+            if (!lk.owns_lock() || !owns(sh->m)) ++sh->bad_own;
+            if (++sh->inside != 1) ++sh->occ_bad;
+            spin_for_ns(300);
+            --sh->inside;
+            lk.unlock();
+            ++sh->done;
+            ++g_heartbeat;
+        });
+    auto notifier = [sh, mode, K, under_lock, &out] {
+        auto t_idle = clk::now();
+        auto relax = [] { if (pika::threads::detail::get_self_ptr()) pika::this_thread::yield(); else std::this_thread::yield(); };
+        while (sh->done.load() < K)
+        {
+            if (clk::now() - t_idle > std::chrono::seconds(8)) { out.fail("notifier gave up: remaining waiters never registered"); return; }
+            std::unique_lock<Mutex> lk(sh->m);    // plain lock on the same mutex: blocks while a waiter holds U
+            int c = sh->registered;
+            int done_before = sh->done.load();
+            if (c == 0) { lk.unlock(); relax(); continue; }
+            long g = 0;
+            if (mode == 'a') g = ++sh->gen; else if (mode == 'o') ++sh->tickets;
+            if (!under_lock) lk.unlock();
+            // each of the c registered waiters released U inside its wait before we acquired U (it may still be
+            // busy inside its unlock()): this notification must reach it
+            if (mode == 'a') sh->cv.notify_all(); else if (mode == 'o') sh->cv.notify_one(); else sh->ss.request_stop();
+            if (mode == 'a') { sh->notified_ns.store(now_ns()); sh->notified_gen.store(g, std::memory_order_release); }
+            if (under_lock) lk.unlock();
+            t_idle = clk::now();
+            int need = mode == 'a' ? c : mode == 'o' ? 1 : K - done_before;
+            if (!wait_until_true([&] { return sh->done.load() >= done_before + need; }, 8000))
+            {
+                std::ostringstream d;
+                d << (mode == 'a' ? "notify_all" : mode == 'o' ? "notify_one" : "request_stop") << " issued by the thread that acquired the user lock while "
+                  << c << " waiters were registered (inside a wait, user lock released by a slow unlock()) woke only "
+                  << (sh->done.load() - done_before) << " of " << need;
+                out.fail(d.str());
+                return;
+            }
+        }
+    };
+    if (os_notifier)
+    {
+        std::atomic<bool> fin{false};
+        std::thread nt([&] { notifier(); fin = true; });
+        bool okw = wait_until_true([&] { return fin.load(); }, 20000);
+        if (!okw) { std::printf("OUT RT %d ok=0 detail=hang OS-thread notifier did not finish (lost notification or blocked notify)\n", g_case.load()); std::fflush(stdout); _exit(0); }
+        nt.join();
+    }
+    else notifier();
+    if (!out.ok)
+    {
+        std::printf("OUT RT %d ok=0 detail=%s\n", g_case.load(), out.detail.c_str());
+        std::fflush(stdout);
+        _exit(0);
+    }
+    for (auto& x : th) x.join();
+    if (sh->bad_own) out.fail("a wait returned without owning the user lock");
+    if (sh->bad_pred) out.fail("a wait loop / predicate wait ended although the predicate is false");
+    if (sh->bad_ret) out.fail("stop-token wait returned a wrong value");
+    if (sh->occ_bad) out.fail("two tasks inside the user lock after wait returned");
+    if (sh->bad_status) out.fail("timed wait returned cv_status::error");
+    if (sh->bad_timeout) out.fail("timed wait reported timeout although it was notified well before the deadline");
+    return out;
+}
+
 static std::uint64_t g_seed = 1;
 static int g_ncases = 100;
+static bool g_slow = false;
+
+static void slow_cases()
+{
+    Rng rng(g_seed ^ 0x51074e10c4ull);
+    for (int cs = 0; cs < g_ncases; ++cs)
+    {
+        g_case = cs;
+        g_pert = rng.next() | 1;
+        unsigned f = (unsigned) rng.below(32);
+        char form = f == 0 ? 't' : "wps"[f % 3];
+        char mode = form == 't' ? 'a' : form == 's' ? "aor"[rng.below(3)] : "ao"[rng.below(2)];
+        int K = 1 + (int) rng.below(form == 't' ? 2 : 4);
+        bool spin = rng.chance(1, 3);                  // underlying mutex: spinlock instead of pika::mutex
+        bool osn = spin && rng.chance(1, 2);           // an OS thread can only take the spinlock
+        bool under = rng.chance(1, 2);
+        std::printf("IN RT %d kind=slow form=%c mode=%s K=%d lock=%c under=%d osnotifier=%d\n", cs, form,
+            mode == 'a' ? "all" : mode == 'o' ? "one" : "stop", K, spin ? 'S' : 'M', (int) under, (int) osn);
+        std::fflush(stdout);
+        Outcome o = spin ? run_slow<spinlock>(form, mode, K, under, osn, rng) : run_slow<pika::mutex>(form, mode, K, under, false, rng);
+        std::printf("OUT RT %d ok=%d detail=%s\n", cs, o.ok ? 1 : 0, o.ok ? "-" : o.detail.c_str());
+        std::fflush(stdout);
+    }
+}
 
 int pika_main()
 {
+    if (g_slow)
+    {
+        slow_cases();
+        pika::finalize();
+        return 0;
+    }
     Rng rng(g_seed);
     for (int cs = 0; cs < g_ncases; ++cs)
     {
@@ -478,6 +660,7 @@ int main(int argc, char** argv)
 {
     g_seed = mix_seed(argc > 1 ? std::strtoull(argv[1], nullptr, 10) : 1);
     g_ncases = argc > 2 ? std::atoi(argv[2]) : 100;
+    g_slow = argc > 3 && std::string(argv[3]) == "slow";    // c07_rt <seed> <n> slow: only the slow-unlock scenario
     pika::verif::hook.store(&hookfn, std::memory_order_release);
     std::thread([] {
         long last = -1;
